@@ -10,6 +10,7 @@ from tcommon import read, strip_comments, write_if_changed, between, ShapeError
 
 OPS = ["Add", "Sub", "Mul", "Div", "Mod", "Shl", "Shr", "Xor", "Eq", "Ne", "Gt", "GtEq", "Lt", "LtEq", "And", "Or"]
 ARITH = {"+": "i64_add", "-": "i64_sub", "*": "i64_mul", "/": "i64_div", "%": "i64_rem", "<<": "i64_shl", ">>": "i64_shr", "^": "i64_xor"}
+CHECKED = {"add": "i64_checked_add", "sub": "i64_checked_sub", "mul": "i64_checked_mul", "div": "i64_checked_div", "rem": "i64_checked_rem"}
 CMPS = {"==": "Z.eqb lhs rhs", "!=": "negb (Z.eqb lhs rhs)", ">": "Z.ltb rhs lhs", ">=": "Z.leb rhs lhs",
         "<": "Z.ltb lhs rhs", "<=": "Z.leb lhs rhs"}
 
@@ -19,6 +20,22 @@ def tr(e):
     m = re.fullmatch(r"match rhs \{ 0 => (-?\d+), _ => (.*?),? \}", e)
     if m:
         return "(if Z.eqb rhs 0 then Val (%s) else %s)" % (m.group(1), tr(m.group(2)))
+    m = re.fullmatch(r"match rhs \{ 0 => Some\((-?\d+)\), _ => (.*?),? \}", e)
+    if m:
+        return "(if Z.eqb rhs 0 then Val (%s) else %s)" % (m.group(1), tr(m.group(2)))
+    # checked arithmetic: `None` is turned into a diagnostic by the caller (Ovf in the model)
+    m = re.fullmatch(r"lhs\.checked_(add|sub|mul|div|rem)\(rhs\)", e)
+    if m:
+        return "%s lhs rhs" % CHECKED[m.group(1)]
+    m = re.fullmatch(r"u32::try_from\(rhs\)\.ok\(\)\.and_then\(\|rhs\| lhs\.checked_(shl|shr)\(rhs\)\)", e)
+    if m:
+        return "i64_checked_%s lhs rhs" % m.group(1)
+    m = re.fullmatch(r"Some\((.*)\)", e)
+    if m:
+        inner = m.group(1).strip()
+        if re.fullmatch(r"lhs \^ rhs", inner) or re.fullmatch(r"\(.*\) as i64", inner):
+            return tr(inner)
+        raise ShapeError("apply_i64: cannot translate Some(%r)" % inner)
     m = re.fullmatch(r"\((.*)\) as i64", e)
     if m:
         c = m.group(1).strip()
@@ -37,7 +54,7 @@ def tr(e):
 
 def translate():
     src = strip_comments(read("mos-core/src/codegen/evaluator.rs"))
-    m = re.search(r"fn apply_i64\(&self, lhs: i64, rhs: i64\) -> i64 \{\s*match self \{(.*?)\n        \}\n    \}", src, re.S)
+    m = re.search(r"fn apply_i64\(&self, lhs: i64, rhs: i64\) -> (?:i64|Option<i64>) \{\s*match self \{(.*?)\n        \}\n    \}", src, re.S)
     if not m:
         raise ShapeError("apply_i64 not found")
     arms = [a for a in re.split(r"\n\s*BinaryOp::", "\n" + m.group(1)) if a.strip()]
@@ -73,7 +90,14 @@ def translate():
     flat = re.sub(r"\s+", " ", ev)
     not_pat = r"if flags\.contains\(ExpressionFactorFlags::NOT\) \{ if number == 0 \{ number = 1 \} else \{ number = 0 \} \}"
     neg_pat = r"if flags\.contains\(ExpressionFactorFlags::NEG\) \{ number = -number; \}"
+    # checked variant: overflow (MIN) is reported as an evaluation error
+    neg_checked_pat = (r"if flags\.contains\(ExpressionFactorFlags::NEG\) \{ number = match number\.checked_neg\(\) \{ "
+                       r"Some\(negated\) => negated, None => \{ return self\.error\( factor\.span, format!\([^;]*\), \) \} \}; \}")
     mn, mg = re.search(not_pat, flat), re.search(neg_pat, flat)
+    neg_checked = False
+    if not mg:
+        mg = re.search(neg_checked_pat, flat)
+        neg_checked = bool(mg)
     if not mn or not mg:
         raise ShapeError("factor arm: NOT/NEG application has unrecognised shape")
     order = "[FNot; FNeg]" if mn.start() < mg.start() else "[FNeg; FNot]"
@@ -85,10 +109,20 @@ def translate():
         raise ShapeError("identifier arm: modifier formulas have unrecognised shape")
     # Number::value
     ast = strip_comments(read("mos-core/src/parser/ast.rs"))
-    nv = re.sub(r"\s+", " ", between(ast, r"pub fn value\(&self\) -> i64 \{", r"pub fn from_type", "Number::value"))
-    m = re.search(r'match self\.data\.as_str\(\) \{ "true" => (\d+), "false" => (\d+), _ => i64::from_str_radix\(&self\.data, self\.radix\)\.ok\(\)\.unwrap\(\), \}', nv)
+    nv = re.sub(r"\s+", " ", between(ast, r"pub fn value\(&self\) -> (?:i64|Option<i64>) \{", r"pub fn from_type", "Number::value"))
+    m = re.search(r'match self\.data(\.to_lowercase\(\))?\.as_str\(\) \{ "true" => (\d+), "false" => (\d+), _ => i64::from_str_radix\(&self\.data, self\.radix\)\.ok\(\)\.unwrap\(\), \}', nv)
+    lit_checked = False
+    if not m:
+        m = re.search(r'match self\.data(\.to_lowercase\(\))?\.as_str\(\) \{ "true" => Some\((\d+)\), "false" => Some\((\d+)\), _ => i64::from_str_radix\(&self\.data, self\.radix\)\.ok\(\), \}', nv)
+        lit_checked = bool(m)
+        if m:
+            # the caller must turn None into an evaluation error
+            fac = re.sub(r"\s+", " ", between(src, r"ExpressionFactor::Number \{ value: number, \.\. \} =>", r"ExpressionFactor::InterpolatedString", "number arm"))
+            if not re.match(r" ?match number\.data\.value\(\) \{ Some\(value\) => Ok\(Some\(value\.into\(\)\)\), None => self\.error\( number\.span, format!\([^;]*\), \), \},? ?$", fac):
+                raise ShapeError("number arm of evaluate_expression_factor has unrecognised shape: %s" % fac[:200])
     if not m:
         raise ShapeError("Number::value has unrecognised shape: %s" % nv[:200])
+    kw_ci = bool(m.group(1))
     out = ["(* GENERATED by translate/t_evaluator.py from mos-core/src/codegen/evaluator.rs and parser/ast.rs. DO NOT EDIT. *)",
            "From Coq Require Import List NArith ZArith Bool.", "Import ListNotations.", "From Mos Require Import model.I64.", "Open Scope Z_scope.",
            "Inductive binop := " + " | ".join(OPS) + ".",
@@ -103,8 +137,11 @@ def translate():
            "Definition low_byte_mask : Z := %s." % ml.group(1),
            "Definition high_byte_shift : Z := %s." % mh.group(1),
            "Definition high_byte_mask : Z := %s." % mh.group(2),
-           "Definition true_value : Z := %s." % m.group(1),
-           "Definition false_value : Z := %s." % m.group(2)]
+           "Definition true_value : Z := %s." % m.group(2),
+           "Definition false_value : Z := %s." % m.group(3),
+           "Definition neg_checked : bool := %s." % ("true" if neg_checked else "false"),
+           "Definition literal_keywords_ignore_case : bool := %s." % ("true" if kw_ci else "false"),
+           "Definition literal_overflow_is_error : bool := %s." % ("true" if lit_checked else "false")]
     fp = write_if_changed("BinOps.v", "\n".join(out) + "\n")
     return {"file": "Gen/BinOps.v", "fingerprint": fp, "operators": len(OPS)}
 
